@@ -529,7 +529,12 @@ def zoo_doc(rng: random.Random, kind: str, i: str, ids: Optional[str] = None) ->
         return {"type": rng.choice(c10.QTYPES), "valueType": "xs:string", "value": "v1", **({"valueId": zoo_ref(rng)} if rng.random() < 0.5 else {}),
                 **({"semanticId": zoo_ref(rng)} if rng.random() < 0.3 else {})}
     if kind == "ref":
-        return dict(zoo_ref(rng, True, 1), keys=[{"type": "Submodel", "value": i}])
+        keys = [{"type": "Submodel", "value": i}]
+        if rng.random() < 0.35:
+            # (round 5) a reference that goes on into the submodel: the XML reader takes it as it is
+            keys += [{"type": rng.choice(["Property", "SubmodelElementCollection", "Blob", "File"]), "value": n}
+                     for n in rng.sample(c10.IDSHORTS, rng.choice([1, 1, 2]))]
+        return dict(zoo_ref(rng, True, 1), keys=keys)
     if kind == "ainfo":
         return {"assetKind": "Instance", "globalAssetId": "g2", "specificAssetIds": [{"name": "n", "value": "v"}]}
     raise ValueError(kind)
@@ -882,6 +887,8 @@ def zoo_request(rng: random.Random, snapshot: List[Any], setup: bool = False) ->
                            ["submodels", "$metadata"], ["submodels", seg(smid), "$reference"], ["submodels", seg(smid), "submodel-elements", "$reference"],
                            ["submodels", seg(smid), "submodel-elements", ".".join(p), "$reference"], ["submodels", seg(smid), "submodel-elements", ".".join(p), "$metadata"],
                            ["shells", seg(sh), "asset-information"], ["shells", seg(sh), "$reference"], ["concept-descriptions"]])
+        if segs[:1] == ["shells"] and len(segs) == 4 and segs[2] == "submodels" and rng.random() < 0.25:
+            method = "DELETE"             # (round 5) removal of a submodel through the reference a shell holds
         xq = rng.choice([None, "x=ä", "x=%FF", "ä", "level=cor\xe9", "idShort=x1", "idShort=" + urllib.parse.quote(rng.choice(ODD_STRINGS[:9]), errors="surrogatepass"),
                          "semanticId=" + ref_b64, "semanticId=" + ref_b64, "semanticId=" + ref_b64, "semanticId=A", "semanticId=" + c10.b64("[]"),
                          "assetIds=" + said, "assetIds=" + said, "assetIds=" + said + "&assetIds=" + c10.b64("5"), "assetIds=%FF", "limit=1&limit=x",
@@ -1078,7 +1085,26 @@ def special_requests(rng: random.Random) -> List[Dict[str, Any]]:
             P(["submodels", c10.b64(i), "submodel-elements"], c10.mk_elem("prop", None, 1), "elem"),
             c10.mk_req("DELETE", ["submodels", c10.b64(i)], 1),
             c10.mk_req("PUT", ["shells", c10.b64(c10.IDS[2]), "submodels", c10.b64(i)], 1, 0, {"p": "obj", "o": sm}, c10.serialise(sm, "json")),
-            c10.mk_req("DELETE", ["shells", c10.b64(c10.IDS[2]), "submodels", c10.b64(i)], 1)]
+            c10.mk_req("DELETE", ["shells", c10.b64(c10.IDS[2]), "submodels", c10.b64(i)], 1)] + deep_reference_requests(rng)
+
+
+def deep_reference_requests(rng: random.Random) -> List[Dict[str, Any]]:
+    """(round 5) a shell's submodel reference that goes on INTO the submodel (posted as XML, where the reader takes the keys as
+    they are), then every route that follows the reference"""
+    i, shid = c10.IDS[1], c10.IDS[3]
+    sm = c10.mk_sm(i, None, 1, [], [c10.mk_elem("prop", "a", 1), c10.mk_elem("prop", "b", 2)])
+    sh = c10.mk_shell(shid, None, 1, [])
+    P = lambda segs, o, p: c10.mk_req("POST", segs, 1, 0, {"p": p, "o" if p == "obj" else "e": o}, c10.serialise(o, "json"))
+    ref = ('<aas:reference xmlns:aas="https://admin-shell.io/aas/3/0"><aas:type>ModelReference</aas:type><aas:keys><aas:key><aas:type>Submodel'
+           '</aas:type><aas:value>%s</aas:value></aas:key><aas:key><aas:type>Property</aas:type><aas:value>%s</aas:value></aas:key></aas:keys>'
+           '</aas:reference>' % (i, rng.choice(["a", "b", "nope"]))).encode()
+    via = ["shells", c10.b64(shid), "submodels", c10.b64(i)]
+    return [P(["submodels"], sm, "obj"), P(["shells"], sh, "obj"),
+            c10.mk_req("POST", ["shells", c10.b64(shid), "submodel-refs"], 1, 1, "raw", ref),
+            c10.mk_req("GET", via, 1), c10.mk_req("GET", via + ["submodel-elements", "a"], 1),
+            c10.mk_req("PUT", via, 1, 0, {"p": "obj", "o": sm}, c10.serialise(sm, "json")),
+            c10.mk_req("DELETE", via, 1),
+            c10.mk_req("DELETE", ["shells", c10.b64(shid), "submodel-refs", c10.b64(i)], 1)]
 
 
 def search(ctx: C.Ctx, disagreements, broken) -> List[C.Failing]:
